@@ -9,6 +9,16 @@
 * `touch_inside_points` — the points that lie ON the boundary of one cell and strictly INSIDE another one.
 * `alias_points`     — other spellings a lenient lookup might take for a cell point: the longitude a full turn
                        away (x ± 360), the mirrored longitude, latitude and longitude exchanged.
+* `hair_off_points`  — points that are NOT on a cell boundary but a hair (2^-30 / 2^-40 of a degree, exactly
+                       representable) away from a vertex / an edge midpoint, to either side: just outside the hull,
+                       or strictly inside one cell next to an edge / vertex it shares with other cells.  The property
+                       says "contains or touches", not "is near".
+* `shared_pair`      — a history of calls on ONE `xarray.Dataset` object: a first convention is constructed on it and
+                       used for a lookup, then a second convention instance of the same class is constructed on the
+                       same object and is the one examined.  `two-grids`: the object carries two grids under
+                       different names (CF: `latitude=` / `longitude=` given explicitly); `replaced`: the geometry
+                       variables of the object are overwritten in place (`ds[name] = …`) in between.  The lookup of a
+                       convention speaks about that convention's own cells, whatever else was done with the dataset.
 """
 from __future__ import annotations
 
@@ -126,3 +136,99 @@ def alias_points(base: list) -> list:
         out.append((-x, y, 'lon-mirrored'))
         out.append((y, x, 'lat-lon-swapped'))
     return out
+
+
+# -- points a hair off the cell boundaries ---------------------------------------------------------------------------
+
+HAIRS = (F(1, 2 ** 30), F(1, 2 ** 40))
+_DIRS = ((1, 0), (0, 1), (1, 1), (1, -1))
+
+
+def hair_off_points(rng: random.Random, kept: list, n_cells: int = 2) -> list:
+    """For `n_cells` cells: one vertex and the midpoint of the edge that starts there, each displaced by a hair
+    (2^-30 or 2^-40) to both sides, in a direction that is not along the edge.  Whether such a point is in a cell
+    at all, and in which, is for the exact tests to say (ground truth / model); a tolerance has no say."""
+    cells = [q for q in kept if q is not None]
+    out = []
+    for q in rng.sample(cells, min(len(cells), n_cells)):
+        m = len(q)
+        i = rng.randrange(m)
+        a, b = q[i], q[(i + 1) % m]
+        u = (b[0] - a[0], b[1] - a[1])
+        dirs = [d for d in _DIRS if u[0] * d[1] - u[1] * d[0] != 0] or list(_DIRS)
+        for p, what in ((a, 'vertex'), (((a[0] + b[0]) / 2, (a[1] + b[1]) / 2), 'edge')):
+            e = rng.choice(HAIRS)
+            d = rng.choice(dirs)
+            for s in (1, -1):
+                out.append((F(p[0]) + s * d[0] * e, F(p[1]) + s * d[1] * e, 'hair-off-' + what))
+    return out
+
+
+# -- several conventions on one dataset object -----------------------------------------------------------------------
+
+TWO_GRID_CONVS = ('cf1d', 'cf2d')      # conventions whose constructor takes the coordinate names explicitly
+_SECOND_NAMES = [('yu', 'xu', 'lat_u', 'lon_u'), ('lat_u', 'lon_u', 'lat_u', 'lon_u'), ('eta_u', 'xi_u', 'gphiu', 'glamu')]
+
+
+def second_grid_names(rng: random.Random, recipe: dict) -> dict:
+    """the same recipe under the names of a second (staggered) grid, disjoint from every name the generators use"""
+    r = copy.deepcopy(recipe)
+    names = rng.choice(_SECOND_NAMES if r['conv'] == 'cf1d' else [n for n in _SECOND_NAMES if n[0] != n[2]])
+    r['ydim'], r['xdim'], r['latname'], r['lonname'] = names
+    return r
+
+
+def _explicit(built, ds):
+    """the convention of `built`'s class on dataset object `ds`, coordinate names given explicitly"""
+    n = built.extra['names']
+    return built.conv_class(ds, latitude=n['lat'], longitude=n['lon'])
+
+
+def _overwrite_in_place(ds, other) -> list:
+    """`ds[name] = …` for every variable of `other` whose content differs; the dataset OBJECT stays the same"""
+    done = []
+    for name in other.variables:
+        v = other.variables[name]
+        if name in ds.variables and ds.variables[name].dims == v.dims and \
+                np.array_equal(np.asarray(ds.variables[name].values), np.asarray(v.values), equal_nan=True):
+            continue
+        ds[name] = (v.dims, np.array(v.values), dict(v.attrs))
+        done.append(name)
+    return done
+
+
+def shared_pair(G, recipe: dict, shared: dict):
+    """-> (built, conv): `built` is the ground truth of `recipe`; `conv` is a convention instance for it that was
+    constructed on a dataset object on which another convention instance (`shared['first']`) had been constructed and
+    used for the lookups of `shared['warm']` before.  Deterministic: replays call exactly this."""
+    first_b = G.build(shared['first'])
+    built = G.build(recipe)
+    mode = shared['mode']
+    if mode == 'two-grids':
+        import xarray as xr
+        ds = xr.merge([first_b.ds, built.ds], combine_attrs='override')
+        first = _explicit(first_b, ds)
+        first.bind()
+    elif mode == 'replaced':
+        ds = first_b.ds
+        first = G.bind(first_b)
+    else:
+        raise ValueError(mode)
+    for (x, y) in shared.get('warm', []):
+        first.get_index_for_point(shapely.Point(float(F(x)), float(F(y))))
+    if mode == 'two-grids':
+        conv = _explicit(built, ds)
+    else:
+        _overwrite_in_place(ds, built.ds)
+        conv = built.conv_class(ds)
+    assert conv.dataset is first.dataset
+    built.ds = ds
+    return built, conv
+
+
+def warm_points(built) -> list:
+    """two points to ask the first convention for: a vertex of its first cell with geometry, and a far point"""
+    for q in built.polys:
+        if q is not None:
+            return [[str(F(q[0][0])), str(F(q[0][1]))], ['1000', '1000']]
+    return [['1000', '1000']]
